@@ -15,6 +15,8 @@ def check(chk, thorough=False):
     chk.run('C03.b', 'R-FLOW', 'the AAD depends on the security source, the canonical scope map, per-block metadata / data under their scope bits, the primary block, and the protected parameters', lambda ob: c03b(tree, ob), floor=7)
     chk.run('C03.c', 'R-FLOW', 'verdict flow is fail-closed: success only from a pycose verify result, exceptions and malformed result arrays fail, a later success never erases an earlier failure', lambda ob: c03c(tree, ob, 'bib'), floor=8)
     chk.run('C03.e', 'R-TRUTH', 'the AAD is rebuilt from decoded blocks, so decoding must preserve every bit of flags and values (= C02.e)', lambda ob: _c02e(tree, ob), floor=20)
+    chk.run('C03.f', 'R-NOPATH', 'a verification that raises or reports failure is collected as a security failure of the bundle (= C12.b)', lambda ob: _c12b(tree, ob), floor=8)
+    chk.run('C03.g', 'R-WHO', 'the verifier takes the scope map and the protected parameters into the AAD exactly as they arrived in the block (no normalising, masking or re-encoding), so any change to them changes the AAD', lambda ob: c03g(tree, ob), floor=7)
     chk.run('C03.d', 'R-ORDER', 'a verification key comes only from the symmetric store by kid, or from a chain that was validated and whose node id matched; every other path raises', lambda ob: c03d(tree, ob), floor=4)
 
 
@@ -85,8 +87,12 @@ def c03a(tree, ob, meth):
         ob.violate(SEC, fd.qual, src(a), 'the target block data is re-attached only conditionally: a message carrying its own inline payload is verified against that copy instead of the block', a)
     else:
         ob.site(SEC, a, 'decode_msg always re-attaches the target block data')
-    froms = [n for n in walk_local(fd.func) if isinstance(n, ast.Assign) and isinstance(n.value, ast.Call) and isinstance(n.value.func, ast.Attribute) and n.value.func.attr == 'from_cose_obj']
+    froms = [n for n in walk_local(fd.func) if isinstance(n, (ast.Assign, ast.Return)) and isinstance(n.value, ast.Call) and isinstance(n.value.func, ast.Attribute) and n.value.func.attr == 'from_cose_obj']
     f = one(froms, 'from_cose_obj', ob)
+    if isinstance(f, ast.Return):
+        # the message object is returned as built: nothing can have been set on it
+        ob.violate(SEC, fd.qual, src(f)[:70], 'the verifier does not bind the external AAD at all: context changes go undetected', f)
+        return
     if src(f.value.args[0]) != src(pm('$m[2]', a.targets[0])['m']) or fd.node(f) not in fd.cfg.reachable([fd.node(a)]):
         ob.violate(SEC, fd.qual, src(f), 'the message object is built before / without the re-attached payload', f)
     strict = kwarg(f.value, 'allow_unknown_attributes')
@@ -111,6 +117,11 @@ def c03a(tree, ob, meth):
             ob.violate(SEC, fvv.qual, 'msg_obj = ...', 'message objects are produced other than by decode_msg', fvv.func)
         else:
             ob.site(SEC, objs[0], name + ': msg_obj only from decode_msg')
+
+
+def _c12b(tree, ob):
+    from .c12 import c12b
+    return c12b(tree, ob)
 
 
 def c03b(tree, ob):
@@ -351,3 +362,60 @@ def c03d(tree, ob):
     nf = [r for r in walk_local(fv.func) if isinstance(r, ast.Raise) and fv.has(r, 'found_chain', False)]
     if not nf:
         ob.violate(SEC, fv.qual, 'if not found_chain: raise', 'a missing certificate chain does not stop key selection', fv.func)
+
+
+
+def c03g(tree, ob):
+    ''' get_external_aad() encodes self.aad_scope and self.addl_protected.  On the verifying side both are filled by
+    extract_secblk() from the parameters of the received block.  They are authenticated only if they are taken as they
+    arrived: a value that is normalised on the way (undefined flag bits masked off, a map decoded and encoded again) is the
+    same for many received values, and a change among those goes unnoticed. '''
+    cls = tree.klass(SEC, 'CoseSecOpCtx')
+    fv = FuncView(tree, SEC, 'CoseSecOpCtx.extract_secblk')
+    want = {'aad_scope': ('5', ('dict(param.value)', 'param.value')), 'addl_protected': ('3', ('bytes(param.value)', 'param.value'))}
+    loops = [n for n in walk_local(fv.func) if isinstance(n, ast.For) and 'self.sec_blk.payload.parameters' in src(n.iter)]
+    loop = one(loops, 'loop over the block parameters in extract_secblk', ob)
+    ob.require(isinstance(loop.target, ast.Name), 'parameter loop variable')
+    pv = loop.target.id
+    for (attr, (code, forms)) in sorted(want.items()):
+        stores = [(f, st, k, v) for (f, st, k, v) in stores_to_self_attr(cls, attr)]
+        taken = 0
+        for (f, st, k, v) in stores:
+            if f.name in ('__init__', '__post_init__'):
+                continue
+            if f is not fv.func:
+                ob.violate(SEC, 'CoseSecOpCtx.' + f.name, src(st)[:70], 'the {} bound into the AAD is rewritten outside the extraction from the block'.format(attr), st)
+                continue
+            if k == 'assign' and (isinstance(v, ast.Constant) or (isinstance(v, ast.Dict) and all(isinstance(x, (ast.Constant, ast.UnaryOp)) for x in v.keys + v.values))):
+                ob.site(SEC, st, '{}: default when the parameter is absent'.format(attr))
+                continue
+            val = fv.value_at(v, st, depth=3, keep=(pv,)) if k == 'assign' else None
+            if val is not None and src(val) in [t.replace('param', pv) for t in forms] and fv.has(st, '{}.type_code == {}'.format(pv, code), True) and enclosing(st, ast.For) is loop:
+                taken += 1
+                ob.site(SEC, st, '{} taken verbatim from parameter {}'.format(attr, code))
+                # ... and from one encoding only: bytes() / dict() also take an array of integers / of pairs, a second
+                # encoding of the same value that would verify although the block was altered
+                typ = 'dict' if attr == 'aad_scope' else 'bytes'
+                if fv.has(st, 'isinstance({}.value, {})'.format(pv, typ), True):
+                    ob.site(SEC, st, 'parameter {} accepted as a {} item only'.format(code, typ))
+                else:
+                    ob.violate(SEC, fv.qual, src(st)[:80] + ' without isinstance({}.value, {})'.format(pv, typ), 'parameter {} is converted with {}() from whatever item arrived: an array of integers / pairs '
+                               'in its place gives the same AAD, so that alteration of the block still verifies'.format(code, typ), st)
+            else:
+                ob.violate(SEC, fv.qual, src(st)[:90], 'the {} that goes into the AAD is not the value of parameter {} as it arrived (normalised, masked or re-encoded): '
+                           'received values that differ only in what the rewrite drops give the same AAD, and the change between them is not detected'.format(attr, code), st)
+        if not taken and not any(f is fv.func for (f, st, k, v) in stores):
+            ob.violate(SEC, fv.qual, 'self.{} = <parameter {}>'.format(attr, code), 'the received parameter {} is not bound into the AAD'.format(code), fv.func)
+    # the MAC / signature / ciphertext envelope itself: the result value is decoded only from a byte string
+    fd = FuncView(tree, SEC, 'CoseSecOpCtx.decode_msg')
+    loads = [c for c in calls_in(fd.func) if pm('cbor2.loads($x)', c) is not None]
+    l = one(loads, 'decode of the result value', ob)
+    x = l.args[0]
+    full = fd.value_at(x, l, depth=3)
+    if "result.getfieldval('value')" not in src(full) and 'result.value' not in src(full):
+        ob.violate(SEC, fd.qual, src(l), 'the COSE message is not decoded from the result value of the block', l)
+    elif isinstance(x, ast.Name) and fd.has(l, 'isinstance({}, bytes)'.format(x.id), True) and src(full) in ("result.getfieldval('value')", 'result.value'):
+        ob.site(SEC, l, 'result value decoded from a byte string item only')
+    else:
+        ob.violate(SEC, fd.qual, src(l) + ' with ' + src(full)[:50], 'the result value is converted from whatever item arrived (bytes() also takes an array of integers): a result re-encoded '
+                   'that way is an alteration of the MAC / signature that still verifies', l)
